@@ -126,7 +126,7 @@ __CPROVER_assigns(self->op_container_, self->results_, self->start_locs_; idx ==
 //@presub /ExecuteInternal\(path\)/ExecuteInternalL_(self, &path)/
 //@sub /^Paths64 Execute/size_t Execute/
 //@sub /self->rect_\.IsEmpty\(\)/Rect_IsEmpty(&self->rect_)/
-//@sub /self->rect_\.(Intersects)\(/Rect_\1(&self->rect_, /
+//@sub /self->rect_\.(Intersects|Contains)\(/Rect_\1(&self->rect_, /
 //@sub /GetBounds\(&\(paths\.data\[vf_i_path\]\)\)/GetBounds_i(paths, vf_i_path)/
 //@sub /ExecuteInternalL_\(self, &\(paths\.data\[vf_i_path\]\)\)/ExecuteInternalL_(self, paths, vf_i_path)/
 __CPROVER_requires(__CPROVER_is_fresh(self, sizeof(*self)) && paths.size < ((size_t)1 << 40) && __CPROVER_is_fresh(paths.data, paths.size * sizeof(VTok)))
